@@ -54,6 +54,9 @@ def make_adapter(m):
     from formak import python
 
     tab = models.symtab(m)
+    # the adapter sorts the keys of every noise map (score / fit), and Symbols cannot be sorted: a noise map with two or more
+    # Symbol keys is outside what the adapter accepts (DESIGN §10 item 22); the filter entry points take it (str(key))
+    m = {k_: v_ for k_, v_ in m.items() if k_ != "noise_symbol_keyed"}
     return python.SklearnEKFAdapter.Create(models.ui_model(m, tab), models.process_noise(m, tab), models.sensor_models(m, tab),
                                            models.sensor_noises(m), models.calibration_map(m, tab), config=models.py_config(m, _object=True))
 
